@@ -104,6 +104,9 @@ void case_impl(Ctx &c, bool from_callback) {
     for (int i = 0; i < 300 && !fired; i++) { A.s.clear_tx(); A.s.clear_ev(); A.s.step_tick(); }
     A.s.hb_event_hook = nullptr;
   }
+  // in a third of the cases the tick interrupt has just run and the elapsed actions are not processed yet when the reset command is handled
+  // (decided from the history length, no tape choice): the reset has to clear them like the pending ones
+  if (!fired && H.size() % 3 == 1) { A.s.service(); c.cls("reset-with-elapsed-unprocessed-timer-actions"); }
   if (!fired) A.s.rx(Frame::mk(0, 2, {(uint8_t)(reset_node ? 129 : 130), 0}));
   c.cls(fired ? "reset-issued-from-the-heartbeat-event-callback" : "reset-by-nmt-command");
   long baseA = A.s.tick;
